@@ -241,6 +241,44 @@ theorem fromFlatRowMajor_inv (rows columns : Nat) (values : List α) (m : Matrix
     exact ⟨⟨hc.1.symm, hr, hcl⟩, rfl, rfl⟩
   · simp at h
 
+/-- **Every public constructor** (`from_scalar`/`unit`, `row`, `column`, `from`,
+    `from_flat_row_major`, `from_fn`, `empty`, `diagonal`, `from_diagonal`), with any arguments:
+    when the documented precondition holds (at least 1×1, rectangular, matching element count,
+    square for the diagonal forms, an element count `usize` can represent) the constructor
+    returns a matrix that satisfies the invariant and abstracts to the described list of rows;
+    otherwise it panics by one of the library's assertions.  So every history of C11 may start
+    from any of them. -/
+theorem constructors_inv (c : Ctor α) :
+    (Rows.ctorPre c = true → ∃ m, c.build = .ok m ∧ m.Inv ∧ abs m = Rows.ctorRows c) ∧
+    (Rows.ctorPre c = false → c.build = .panic .explicit) :=
+  ctor_spec c
+
+/-- Histories from constructors: a matrix built by any public constructor and then subjected to
+    any finite history satisfies the invariant and abstracts to the list-of-rows history started
+    from the constructor's rows. -/
+theorem constructed_history_refines (c : Ctor α) (m : Matrix α) (h : c.build = .ok m)
+    (ops : List (Op α)) :
+    (m.run ops).Inv ∧ abs (m.run ops) = Rows.run (Rows.ctorRows c) ops := by
+  cases hp : Rows.ctorPre c with
+  | false => rw [(ctor_spec c).2 hp] at h; cases h
+  | true =>
+    obtain ⟨m', hb, hinv, habs⟩ := (ctor_spec c).1 hp
+    rw [hb] at h
+    cases h
+    rw [← habs]
+    exact ⟨(history_refines m hinv ops).1, (history_refines m hinv ops).2.1⟩
+
+/-! ### read-only scalar accessors -/
+
+/-- `scalar()` returns the only element of a 1×1 list of rows and panics otherwise. -/
+theorem scalar_refines (m : Matrix α) (h : m.Inv) : m.scalarP = Rows.scalar (abs m) :=
+  scalarP_spec m h
+
+/-- `try_into_scalar()` never panics: `Ok` of the only element of a 1×1 list of rows, `Err` otherwise. -/
+theorem tryIntoScalar_refines (m : Matrix α) (h : m.Inv) :
+    m.tryIntoScalar = .ok (Rows.tryIntoScalar (abs m)) :=
+  tryIntoScalar_spec m h
+
 /-! ### the list-of-rows operations are the obvious ones -/
 
 /-- transposition of a well-formed list of rows exchanges the coordinates of every cell -/
@@ -277,6 +315,14 @@ example :
        .retainMut (.not (.single 0)) .all, .transposeMut, .set 0 0 99, .removeRow 3] =
       [true, true, false, false, false, false, false] := by
   decide
+
+/-- constructors: an accepted and a rejected argument for each clause of `constructors_inv` -/
+example : Rows.ctorPre (Ctor.fromDiagonal 0 [7, 8, 9] : Ctor Nat) = true ∧
+    (Ctor.fromDiagonal 0 [7, 8, 9] : Ctor Nat).build = .ok ⟨[7, 0, 0, 0, 8, 0, 0, 0, 9], 3, 3⟩ ∧
+    Rows.ctorPre (Ctor.diagonal 0 5 2 3 : Ctor Nat) = false ∧
+    Rows.ctorPre (Ctor.empty 1 (2 ^ 63) 2 : Ctor Nat) = false ∧
+    Rows.ctorPre (Ctor.row [] : Ctor Nat) = false :=
+  ⟨by decide, rfl, by decide, by decide, by decide⟩
 
 /-! ### the unrepaired code violates these statements (defect witnesses)
 
